@@ -745,6 +745,46 @@ Proof.
   reflexivity.
 Qed.
 
+(* ---------------------------------------------------------------- three-body helpers (DPD): spectator and decay products *)
+Lemma lZ_eqb_eq : forall a b, Kin.lZ_eqb a b = true -> a = b.
+Proof.
+  induction a as [|x a IH]; intros [|y b]; simpl; try discriminate; [reflexivity|].
+  intros H. apply andb_prop in H. destruct H as [H1 H2]. apply Z.eqb_eq in H1. subst. f_equal. now apply IH.
+Qed.
+
+Lemma memZ_In' x l : PyTopo.memZ x l = true <-> In x l.
+Proof.
+  unfold PyTopo.memZ. rewrite existsb_exists. split.
+  - intros (y & Hy & E). apply Z.eqb_eq in E. now subst.
+  - intros H. exists x. split; [exact H|apply Z.eqb_refl].
+Qed.
+
+Theorem gen_spectator_spec t s : gen_get_spectator_id t = Ok s ->
+  topo_incoming_edge_ids t = [0] /\ topo_outgoing_edge_ids t = [1; 2; 3] /\
+  In s [1; 2; 3] /\ ~ In s (topo_outgoing t 1) /\
+  (forall x, In x [1; 2; 3] -> ~ In x (topo_outgoing t 1) -> x = s) /\
+  gen_get_decay_product_ids t = Ok (Kin.sort (topo_outgoing t 1)).
+Proof.
+  unfold gen_get_spectator_id, gen_get_decay_product_ids, gen_assert_three_body_decay.
+  cbv zeta.
+  destruct (negb (lenZ (topo_incoming_edge_ids t) =? 1) || negb (lenZ (topo_outgoing_edge_ids t) =? 3)); [discriminate|].
+  destruct (Kin.lZ_eqb (topo_incoming_edge_ids t) (set_of [0])) eqn:E0; [|discriminate].
+  destruct (Kin.lZ_eqb (topo_outgoing_edge_ids t) (set_of [1; 2; 3])) eqn:E1; [|discriminate].
+  cbn [negb orb bind]. apply lZ_eqb_eq in E0. apply lZ_eqb_eq in E1.
+  change (set_of [0]) with [0] in E0. change (set_of [1; 2; 3]) with [1; 2; 3] in E1.
+  rewrite E1. intros H.
+  destruct (set_diff [1; 2; 3] (topo_outgoing t 1)) as [|y [|z r]] eqn:Ed; try discriminate.
+  cbn [py_next_iter bind] in H. injection H as <-.
+  assert (Hs : forall x, In x [y] <-> In x [1; 2; 3] /\ ~ In x (topo_outgoing t 1)).
+  { intros x. rewrite <- Ed. unfold set_diff. rewrite filter_In. rewrite negb_true_iff.
+    split; intros [A B]; split; auto.
+    - intros C. apply memZ_In' in C. congruence.
+    - destruct (PyTopo.memZ x (topo_outgoing t 1)) eqn:M; [|reflexivity]. apply memZ_In' in M. contradiction. }
+  destruct (proj1 (Hs y) (or_introl eq_refl)) as [A B].
+  repeat split; auto.
+  intros x Hx Hn. destruct (proj2 (Hs x) (conj Hx Hn)) as [->|[]]. reflexivity.
+Qed.
+
 (* decidable form of the hypotheses, for the non-vacuity example *)
 Fixpoint nodupb (l : list Z) : bool := match l with [] => true | x :: r => negb (memZ x r) && nodupb r end.
 Definition refine_hyps_ok (t : rtopo) : bool :=
